@@ -49,6 +49,7 @@ func (a *ake) wipe(wipeKeys bool) {
 	a.theirPublicValue = nil
 
 	wipeBytes(a.r[:])
+	a.ourCommitPending = false
 
 	a.wipeGX()
 	a.revealKey.unlock()
